@@ -1,7 +1,6 @@
 SPECIFICATION TraceSpec
 CONSTANTS
-  Orders = {3, 4}
-  WideOrders = {3, 4}
-  SoftOrders = {3, 4}
+  Wide = TRUE
+  BoxMax = 0
 POSTCONDITION TraceAccepted
 CHECK_DEADLOCK FALSE
